@@ -6,7 +6,7 @@ PROPS = {
                      "certainly stored valid salt exists) on random Store/Get/Reset sequences and on concurrent histories (porcupine). Every frame the real connection "
                      "writes at fake time t must carry the last salt told by the server or an announced future salt valid past t+5min (a kept future salt is tolerated "
                      "only when nothing valid past the lookahead is stored); a request rejected with bad_server_salt before/after ack must be transmitted exactly twice, "
-                     "the second time with the new salt (also when the rejection arrives inside a burst of unrelated server messages, and when 2..4 requests in flight under the same salt are all rejected with the same or different new salts in any order: back to back, strictly one after the other, or interleaved with retransmissions and results), and never a third time after a second rejection. "
+                     "the second time with the new salt (also when the rejection arrives inside a burst of unrelated server messages, and when 2..4 requests in flight under the same salt are all rejected with the same or different new salts in any order: back to back, strictly one after the other, or interleaved with retransmissions and results), and never a third time after a second rejection; bad_server_salt naming a stored (first/middle/last) or unknown salt with near-expiry sets, clock travel between send and rejection and a clock step between the rejection and the retransmission. "
                      "Concurrent Invokes with rejections run under the race detector.",
                 note="Trusted: harness/refmodel cipher, generated mt TL encoders, neo fake clock. Scenarios are sampled. The rpc retry timer is disabled so that every "
                      "retransmission is attributable to the bad-salt path. bad_server_salt for non-RPC service messages is not generated (outside the statement).",
@@ -16,7 +16,7 @@ PROPS = {
                           "duplicated pongs; keep-alive ticks from the neo fake clock; verdicts on outcomes (return values, Run termination, goroutine dump), never on durations",
                 text="Conn.Ping returns nil only after a pong with its own ping id was delivered, does not return before cancellation without one, and does not stay "
                      "parked after a consumed matching pong (plain, in container, inside rpc_result, duplicated; decoys id+-1, inverted, swapped, other/earlier pings). "
-                     "Keep-alive: Run ends on its own with an error after an unanswered or decoy-only ping and never sends a further ping; Run keeps running through "
+                     "A ping cancelled before / concurrently with / just after its matching pong is followed by an unanswered ping that must not succeed (manual and keep-alive). Keep-alive: Run ends on its own with an error after an unanswered or decoy-only ping and never sends a further ping; Run keeps running through "
                      "3..6 ticks when every ping is answered.",
                 note="Trusted: harness/refmodel cipher, mt TL encoders, neo fake clock, runtime.Stack goroutine states. The ping timeout is a real context timeout: the "
                      "'alive' arm uses 45 s (a synchronously queued pong is assumed to be handled within that), the 'dead' arm 300 ms; dead-arm runs whose earlier "
